@@ -23,7 +23,8 @@ S = "cuqi/samples/_samples.py:Samples"
 
 
 def _norm(e) -> str:
-    return unparse(e).replace(" ", "").replace("\n", "")
+    from .common import vstr
+    return vstr(e)
 
 
 def run(chk, repo: Repo):
